@@ -33,7 +33,7 @@ class Harness:
         self.merge_calls = []
         self.children_calls = []
 
-    def interp(self, strand="+", exons=None):
+    def interp(self, strand="+", exons=None, isoforms=None):
         it = Interp(self.ctx)
         H = self
         self.real_merge = getattr(self, "real_merge", False)
@@ -55,6 +55,12 @@ class Harness:
 
         def ch(i, pos, kw, node):
             H.children_calls.append((list(pos), dict(kw)))
+            if isoforms is not None:
+                # {transcript: [(start, end), ...]}: every transcript has its own exon features
+                if kw.get("featuretype") is None:
+                    return [feat(n_, "chr1", 1, 1000, strand=strand, ft="mRNA", attrs={"ID": [n_]}) for n_ in isoforms]
+                tn = getattr(pos[0], "name", None) if pos else None
+                return [feat("%s.e%d" % (tn, k_), "chr1", a_, b_, strand=strand, attrs={"Parent": [tn]}) for k_, (a_, b_) in enumerate(isoforms.get(tn, []))]
             if kw.get("featuretype") is None:
                 return [feat("T", "chr1", 1, 100, strand=strand, ft="mRNA")]
             return list(exons) if exons is not None else [feat("E1", "chr1", 10, 20, strand=strand), feat("E2", "chr1", 30, 40, strand=strand)]
@@ -246,6 +252,18 @@ def check(ctx):
     got = [(y.attrs.get("start"), y.attrs.get("end"), y.attrs.get("featuretype")) for y in ys if isinstance(y, Opaque)]
     ctx.ob("R7", got == [(21, 29, "intron")], "create_introns yields the gaps between a transcript's exons, typed 'intron'", func=ci, sig="exons 10..20, 30..40 -> %s" % got)
     _children_rule(ctx, H, ci, eft)
+    first_merge_calls = list(H.merge_calls)
+    # per transcript: isoforms that share exon coordinates each get their own n-1 introns
+    for label, iso in (("two isoforms with the same first gap", {"T1": [(100, 200), (301, 400)], "T2": [(100, 200), (301, 450), (500, 600)]}),
+                       ("two identical isoforms and one without gaps", {"T1": [(10, 20), (30, 40)], "T2": [(10, 20), (30, 40)], "T3": [(10, 40)]})):
+        for ma_ in (True, False):
+            ys, t = H.run(ci, {"merge_attributes": ma_}, isoforms=iso)
+            got = sorted((y.attrs.get("start"), y.attrs.get("end")) for y in ys if isinstance(y, Opaque))
+            want = sorted((a[1] + 1, b[0] - 1) for ex in iso.values() for a, b in zip(ex, ex[1:]))
+            ctx.ob("R7", got == want, "a transcript with n exons gets n-1 introns, whatever other transcripts look like (%s)" % label, func=ci,
+                   sig="%s, merge_attributes=%s: one intron per gap per transcript" % (label, ma_) if got == want else "%s, merge_attributes=%s: introns %s, gaps %s" % (label, ma_, got, want),
+                   nontrivial=ma_)
+    H.merge_calls = first_merge_calls
     ok = len(H.merge_calls) == 1 and getattr(H.merge_calls[0][1].get("numeric_sort"), "name", None) == "numeric_sort"
     ctx.ob("R7", ok, "create_introns forwards merge_attributes / numeric_sort to interfeatures", func=ci, sig="merge_attributes reached with numeric_sort=%s" % (
         H.merge_calls[0][1].get("numeric_sort") if H.merge_calls else None), nontrivial=False)
